@@ -153,7 +153,9 @@ CLAIMS["C01"] = dict(
           "well-formed and every context: no index, slice-bound or nil failure (full safety, not `partial`); the parameter-key counter always indexes an existing wildcard of the node "
           "(counted by cnt over the key); the stack of saved alternatives only holds valid (node, child, path offset, parameter count) entries whose parameter counts are monotone and "
           "never exceed what is recorded, so every backtrack truncates to a recorded prefix (this is the obligation that fails when the parameter count is not restored); the 32-bit "
-          "parameter counter cannot wrap; a reported trailing-slash match always comes with a node; every returned node is a leaf. "
+          "parameter counter cannot wrap; a reported trailing-slash match always comes with a node; every returned node is a leaf; a lazy walk never grows the parameter list; the caller's "
+          "context stays live. parseWildcard is functionally specified for valid key fragments: one entry per '{', each `end` right after its '}' (or -1 at the end of the key), which is "
+          "the params part of the node invariant the walks assume, and newNodeFromRef hands it on. "
           "NOT proved (bounded only): WHICH route is selected - priority static > parameter > catch-all, parameters in pattern order, substitution."),
     design_ref="DESIGN.md section 4 C01, section 9, section 10",
     note=TRUSTED + BOUNDED + " Assumed for the walks: node well-formedness of every node in the heap (nodeWF in verif_contracts_walk.go: index ranges, params/end positions agree with the '{' count of the key, childless and catch-all-terminal nodes are leaves, infix catch-alls have an inode) - not proved of the constructors, but checked on every tree the routing and map-model stand-ins build; a sub-walk on a pooled context leaves the caller's buffers alone; the monotonicity axiom of cnt. Two genuine defects found by the stand-in were repaired (parameter count after a second backtrack; known_findings.json); three sibling-dependent trailing-slash priority witnesses are recorded as open findings.")
